@@ -340,3 +340,859 @@ def result_types(data, export):
     m = decode(data)
     idx = [i for (n, k, i) in m.exports if n == export and k == "func"][0]
     return m.types[m.funcs[idx - len(m.imported("func"))]][1]
+
+
+# ---------------------------------------------------------------------------------------------
+# part 1: hand-assembled modules
+CASES = []
+
+
+def case(name_, data, expect="ok", calls=None, v8=None):
+    """expect: 'ok' or (stage, rule).  calls: [(export, [(type, value)], expected)] with expected a
+    list of results, 'trap', or None (only compared with V8).  v8: 'accepts' when V8 is known to be
+    laxer than 1.0 for this module (post-MVP feature), with the reason in the case name."""
+    CASES.append(dict(name=name_, data=data, expect=expect, calls=calls, v8=v8))
+
+
+def A(t, v):
+    return (t, v)
+
+
+def valid_cases():
+    ii_i, ff_f, i_i, v_v = ([I32, I32], [I32]), ([F32, F32], [F32]), ([I32], [I32]), ([], [])
+    case("empty module", HEADER)
+    case("i32 add", module(types=[ii_i], funcs=[0], exports=[("add", "func", 0)],
+                           codes=[([], lget(0) + lget(1) + op("i32.add"))]),
+         calls=[("add", [A("i32", 1), A("i32", 2)], [3]),
+                ("add", [A("i32", 0x7FFFFFFF), A("i32", 1)], [-2 ** 31]),
+                ("add", [A("i32", -1), A("i32", -1)], [-2])])
+    case("f32 mul-add rounds each step", module(
+        types=[ff_f], funcs=[0], exports=[("f", "func", 0)],
+        codes=[([], lget(0) + lget(1) + op("f32.mul") + lget(0) + op("f32.add"))]),
+        calls=[("f", [A("f32", 1.5), A("f32", 2.25)], [4.875]),
+               ("f", [A("f32", 16777216.0), A("f32", 1.0000001192092896)], None),
+               ("f", [A("f32", 3.4028234663852886e38), A("f32", 2.0)], [float("inf")]),
+               ("f", [A("f32", 0.1), A("f32", 0.1)], None)])
+    case("locals, tee, zero init", module(
+        types=[i_i], funcs=[0], exports=[("f", "func", 0)],
+        codes=[([(2, I32), (1, F32)], lget(0) + i32c(3) + op("i32.mul") + ltee(1) + lget(2) +
+                op("i32.add") + lset(2) + lget(2) + lget(1) + op("i32.add") + lget(3) +
+                op("i32.trunc_f32_s", "i32.add"))]),
+        calls=[("f", [A("i32", 5)], [30])])
+    case("calls between functions", module(
+        types=[i_i, ii_i], funcs=[1, 0], exports=[("sumsq", "func", 0)],
+        codes=[([], lget(0) + b"\x10\x01" + lget(1) + b"\x10\x01" + op("i32.add")),
+               ([], lget(0) + lget(0) + op("i32.mul"))]),
+        calls=[("sumsq", [A("i32", 3), A("i32", 4)], [25]),
+               ("sumsq", [A("i32", 65536), A("i32", 1)], [1])])
+    fac_loop = (i32c(1) + lset(1) + bytes([O["block"], VOID, O["loop"], VOID]) + lget(0) +
+                op("i32.eqz") + b"\x0d\x01" + lget(1) + lget(0) + op("i32.mul") + lset(1) +
+                lget(0) + i32c(1) + op("i32.sub") + lset(0) + b"\x0c\x00" + b"\x0b\x0b" + lget(1))
+    case("factorial loop", module(types=[i_i], funcs=[0], exports=[("fac", "func", 0)],
+                                  codes=[([(1, I32)], fac_loop)]),
+         calls=[("fac", [A("i32", 5)], [120]), ("fac", [A("i32", 10)], [3628800]),
+                ("fac", [A("i32", 13)], [1932053504]), ("fac", [A("i32", 0)], [1])])
+    fac_rec = (lget(0) + op("i64.eqz") + bytes([O["if"], I64]) + i64c(1) + op("else") + lget(0) +
+               lget(0) + i64c(1) + op("i64.sub") + b"\x10\x00" + op("i64.mul") + op("end"))
+    case("factorial recursive i64", module(types=[([I64], [I64])], funcs=[0],
+                                           exports=[("fac", "func", 0)], codes=[([], fac_rec)]),
+         calls=[("fac", [A("i64", 20)], [2432902008176640000]), ("fac", [A("i64", 21)], None),
+               ("fac", [A("i64", 25)], None)])
+    case("if/else abs and max", module(
+        types=[i_i, ii_i], funcs=[0, 1], exports=[("abs", "func", 0), ("max", "func", 1)],
+        codes=[([], lget(0) + i32c(0) + op("i32.lt_s") + bytes([O["if"], I32]) + i32c(0) + lget(0) +
+                op("i32.sub", "else") + lget(0) + op("end")),
+               ([], lget(0) + lget(1) + op("i32.gt_s") + bytes([O["if"], VOID]) + lget(0) +
+                op("return", "end") + lget(1))]),
+        calls=[("abs", [A("i32", -7)], [7]), ("abs", [A("i32", -2 ** 31)], [-2 ** 31]),
+               ("max", [A("i32", 3), A("i32", -4)], [3]), ("max", [A("i32", -3), A("i32", 4)], [4])])
+    mem_code = [
+        ([], lget(0) + lget(1) + b"\x36\x02\x00"),                         # store(addr, v)
+        ([], lget(0) + b"\x28\x02\x00"),                                   # load
+        ([], lget(0) + b"\x2c\x00\x00" + lget(0) + b"\x2d\x00\x01" + op("i32.add")),  # load8_s + load8_u off 1
+        ([], lget(0) + b"\x2e\x01\x00" + lget(0) + b"\x2f\x00\x02" + op("i32.mul")),  # load16_s * load16_u
+        ([], op("memory.size", 0)),
+        ([], lget(0) + op("memory.grow", 0)),
+        ([], lget(0) + lget(0) + b"\x29\x03\x00" + b"\x37\x00\x08" + lget(0) + b"\x34\x02\x08" +
+         op("i32.wrap_i64")),                                              # i64 copy, load32_s
+        ([], lget(0) + f32c(1.1) + b"\x38\x02\x00" + lget(0) + b"\x2a\x02\x00" + op("f64.promote_f32") +
+         lget(0) + f64c(2.2) + b"\x39\x03\x10" + lget(0) + b"\x2b\x03\x10" + op("f64.add")),
+        ([], lget(0) + i64c(-2) + b"\x3c\x00\x00" + lget(0) + i64c(-3) + b"\x3d\x01\x02" + lget(0) +
+         i64c(-4) + b"\x3e\x02\x04" + lget(0) + i32c(0x1ABCD) + b"\x3a\x00\x08" + lget(0) +
+         i32c(0x1ABCD) + b"\x3b\x01\x0a" + lget(0) + b"\x29\x00\x00" + lget(0) + b"\x35\x00\x08" +
+         op("i64.xor") + lget(0) + b"\x30\x00\x00" + op("i64.add") + lget(0) + b"\x31\x00\x00" +
+         op("i64.add") + lget(0) + b"\x32\x00\x02" + op("i64.add") + lget(0) + b"\x33\x00\x02" +
+         op("i64.add")),
+    ]
+    mt = [([I32, I32], []), i_i, i_i, i_i, ([], [I32]), i_i, i_i, ([I32], [F64]), ([I32], [I64])]
+    case("memory", module(
+        types=mt, funcs=list(range(9)), mems=[limits(1, 3)],
+        exports=[(n, "func", i) for i, n in enumerate("store load b h size grow copy fl wide".split())],
+        codes=mem_code, datas=[(i32c(16), b"\x80\xff\x7f\x01\xfe\xff"), (i32c(65532), b"abcd")]),
+        calls=[("load", [A("i32", 16)], [0x017FFF80]), ("b", [A("i32", 16)], [-128 + 255]),
+               ("h", [A("i32", 16)], [-128 * 0x017F]), ("load", [A("i32", 65532)], [0x64636261]),
+               ("load", [A("i32", 65533)], "trap"), ("load", [A("i32", -1)], "trap"),
+               ("store", [A("i32", 100), A("i32", -5)], []), ("load", [A("i32", 100)], [-5]),
+               ("load", [A("i32", 98)], [-327680]),
+               ("store", [A("i32", 65533), A("i32", 1)], "trap"), ("size", [], [1]),
+               ("grow", [A("i32", 1)], [1]), ("size", [], [2]), ("load", [A("i32", 65533)], None),
+               ("grow", [A("i32", 2)], [-1]), ("grow", [A("i32", 1)], [2]), ("grow", [A("i32", 1)], [-1]),
+               ("grow", [A("i32", 0)], [3]), ("copy", [A("i32", 16)], [0x017FFF80]),
+               ("fl", [A("i32", 200)], None), ("wide", [A("i32", 300)], None)])
+    case("globals and start", module(
+        types=[v_v, ([], [I32]), ([], [F32])], funcs=[0, 1, 2],
+        globals_=[(I32, 1, i32c(40)), (F32, 0, f32c(2.5)), (I64, 1, i64c(-1)), (F64, 0, f64c(1e300))],
+        exports=[("bump", "func", 1), ("g1", "func", 2), ("counter", "global", 0)], start=0,
+        codes=[([], op("global.get", 0) + i32c(2) + op("i32.add") + op("global.set", 0)),
+               ([], op("global.get", 0) + i32c(1) + op("i32.add") + op("global.set", 0, "global.get", 0)),
+               ([], op("global.get", 1))]),
+        calls=[("bump", [], [43]), ("bump", [], [44]), ("g1", [], [2.5])])
+    case("select, drop, nop", module(
+        types=[([I32, F32, F32], [F32]), ([I32, I32, I32], [I32])], funcs=[0, 1],
+        exports=[("fsel", "func", 0), ("isel", "func", 1)],
+        codes=[([], lget(1) + lget(2) + lget(0) + op("nop", "select")),
+               ([], lget(0) + lget(1) + lget(2) + op("select") + i32c(9) + op("drop"))]),
+        calls=[("fsel", [A("i32", 1), A("f32", 1.5), A("f32", -0.0)], [1.5]),
+               ("fsel", [A("i32", 0), A("f32", 1.5), A("f32", -0.0)], [-0.0]),
+               ("isel", [A("i32", 7), A("i32", 8), A("i32", 256)], [7]),
+               ("isel", [A("i32", 7), A("i32", 8), A("i32", 0)], [8])])
+    conv = [("i32.trunc_f32_s", F32, I32), ("i32.trunc_f32_u", F32, I32), ("i32.trunc_f64_s", F64, I32),
+            ("i32.trunc_f64_u", F64, I32), ("i64.trunc_f32_s", F32, I64), ("i64.trunc_f32_u", F32, I64),
+            ("i64.trunc_f64_s", F64, I64), ("i64.trunc_f64_u", F64, I64), ("f32.convert_i32_s", I32, F32),
+            ("f32.convert_i32_u", I32, F32), ("f32.convert_i64_s", I64, F32), ("f32.convert_i64_u", I64, F32),
+            ("f64.convert_i32_s", I32, F64), ("f64.convert_i32_u", I32, F64), ("f64.convert_i64_s", I64, F64),
+            ("f64.convert_i64_u", I64, F64), ("i32.wrap_i64", I64, I32), ("i64.extend_i32_s", I32, I64),
+            ("i64.extend_i32_u", I32, I64), ("f32.demote_f64", F64, F32), ("f64.promote_f32", F32, F64),
+            ("i32.reinterpret_f32", F32, I32), ("i64.reinterpret_f64", F64, I64),
+            ("f32.reinterpret_i32", I32, F32), ("f64.reinterpret_i64", I64, F64)]
+    samples = {I32: [0, 1, -1, 2 ** 31 - 1, -2 ** 31, 16777217, -16777217, 0x7FFFFF40, 0x3F800000],
+               I64: [0, -1, 2 ** 63 - 1, -2 ** 63, 0x8000008000000001 - 2 ** 64, 0x7FFFFFBFFFFFFFFF,
+                     0x7FFFFF4000000001, 9007199254740993, -9007199254740993, 0x0020000020000001,
+                     0x4000000000000000 + 0x4000000001, 0x3FF0000000000000],
+               F32: [0.0, -0.0, 0.5, -0.9, 1.5, -1.5, 2147483520.0, 2147483648.0, -2147483648.0,
+                     -2147483904.0, 4294967040.0, 4294967296.0, -1.0, 9.223371487098962e18,
+                     9.223372036854776e18, -9.223372036854776e18, 1.8446742974197924e19,
+                     1.8446744073709552e19, float("inf"), float("-inf"), float("nan"), 1e-45],
+               F64: [0.0, -0.0, 0.5, -0.9999999, 2147483647.9, 2147483648.0, -2147483648.9, -2147483649.0,
+                     4294967295.9, 4294967296.0, -1.0, 9.223372036854775e18, 9.223372036854776e18,
+                     -9.223372036854776e18, -9.223372036854778e18, 1.844674407370955e19,
+                     1.8446744073709552e19, float("inf"), float("nan"), 1e300, -1e300, 1e-320,
+                     3.4028235677973366e38, 3.4028235677973362e38, 1.0000000596046448, 1.0000000596046447,
+                     1.401298464324817e-45, 7.006492321624085e-46, 7.006492321624087e-46]}
+    case("conversions", module(
+        types=[([a], [r]) for _n, a, r in conv], funcs=list(range(len(conv))),
+        exports=[(n, "func", i) for i, (n, _a, _r) in enumerate(conv)],
+        codes=[([], lget(0) + op(n)) for n, _a, _r in conv]),
+        calls=[(n, [A(TNAME[a], v)], None) for n, a, _r in conv for v in samples[a]
+               if not (n.startswith(("i32.reinterpret", "i64.reinterpret")) and v != v)])
+    sw = (bytes([O["block"], VOID, O["block"], VOID, O["block"], VOID]) + lget(0) +
+          b"\x0e\x02\x00\x01\x02" + op("end") + i32c(10) + op("return", "end") + i32c(20) +
+          op("return", "end") + i32c(30))
+    case("br_table switch", module(types=[i_i], funcs=[0], exports=[("sw", "func", 0)], codes=[([], sw)]),
+         calls=[("sw", [A("i32", v)], [r]) for v, r in ((0, 10), (1, 20), (2, 30), (3, 30), (-1, 30))])
+    case("call_indirect", module(
+        types=[i_i, ii_i, ([I64], [I32])], funcs=[0, 0, 2, 1], tables=[limits(6, 6)],
+        exports=[("disp", "func", 3)], elems=[(i32c(1), [0, 1]), (i32c(4), [2])],
+        codes=[([], lget(0) + i32c(1) + op("i32.add")), ([], lget(0) + i32c(2) + op("i32.mul")),
+               ([], lget(0) + op("i32.wrap_i64")), ([], lget(1) + lget(0) + b"\x11\x00\x00")]),
+        calls=[("disp", [A("i32", 1), A("i32", 20)], [21]), ("disp", [A("i32", 2), A("i32", 20)], [40]),
+               ("disp", [A("i32", 0), A("i32", 1)], "trap"), ("disp", [A("i32", 4), A("i32", 1)], "trap"),
+               ("disp", [A("i32", 6), A("i32", 1)], "trap"), ("disp", [A("i32", -1), A("i32", 1)], "trap")])
+    ibin = [t + "." + n for t in ("i32", "i64") for n in _IBIN + _ICMP]
+    iun = [t + "." + n for t in ("i32", "i64") for n in _IUN + ["eqz"]]
+    ty = {"i32": I32, "i64": I64, "f32": F32, "f64": F64}
+
+    def res_of(n):
+        return I32 if n.split(".")[1] in _ICMP + _FCMP + ["eqz"] else ty[n[:3]]
+    tys, exps, cds, calls = [], [], [], []
+    vals = {"i32": [0, 1, -1, 2, 31, 32, 33, -2 ** 31, 2 ** 31 - 1, 7, -7, 0x12345678, 0xF0F0F0F0 - 2 ** 32],
+            "i64": [0, 1, -1, 2, 63, 64, 65, -2 ** 63, 2 ** 63 - 1, 7, -7, 0x123456789ABCDEF0,
+                    0xF0F0F0F0F0F0F0F0 - 2 ** 64, 2 ** 32, -2 ** 31],
+            "f32": [0.0, -0.0, 1.0, -1.0, 0.5, -0.5, 1.5, 2.5, -2.5, 3.5, 0.1, 1e-45, 3.4028234663852886e38,
+                    float("inf"), float("-inf"), float("nan"), 8388608.5, 8388607.5, -4.0, 16777216.0, 3.0],
+            "f64": [0.0, -0.0, 1.0, -1.0, 0.5, -0.5, 1.5, 2.5, -2.5, 0.1, 5e-324, 1.7976931348623157e308,
+                    float("inf"), float("-inf"), float("nan"), 4503599627370496.5, 4503599627370495.5,
+                    -4.0, 9007199254740993.0, 3.0, 0.49999999999999994]}
+    fbin = [t + "." + n for t in ("f32", "f64") for n in _FBIN + _FCMP]
+    fun = [t + "." + n for t in ("f32", "f64") for n in _FUN]
+    for n in ibin + iun + fbin + fun:
+        t, binary = n[:3], n in ibin or n in fbin
+        tys.append(([ty[t]] * (2 if binary else 1), [res_of(n)]))
+        exps.append((n, "func", len(cds)))
+        cds.append(([], lget(0) + (lget(1) if binary else b"") + op(n)))
+        for a in vals[t]:
+            if binary:
+                for b in vals[t]:
+                    if n.endswith("copysign") and b != b:
+                        continue                  # sign of a NaN is not deterministic
+                    calls.append((n, [A(t, a), A(t, b)], None))
+            else:
+                calls.append((n, [A(t, a)], None))
+    case("all numeric operators", module(types=tys, funcs=list(range(len(cds))), exports=exps, codes=cds),
+         calls=calls)
+    case("div/rem traps (expected values)", module(
+        types=[ii_i], funcs=[0, 0, 0], exports=[("div", "func", 0), ("rem", "func", 1), ("divu", "func", 2)],
+        codes=[([], lget(0) + lget(1) + op(n)) for n in ("i32.div_s", "i32.rem_s", "i32.div_u")]),
+        calls=[("div", [A("i32", 7), A("i32", 0)], "trap"), ("div", [A("i32", -2 ** 31), A("i32", -1)], "trap"),
+               ("rem", [A("i32", -2 ** 31), A("i32", -1)], [0]), ("rem", [A("i32", -7), A("i32", 2)], [-1]),
+               ("rem", [A("i32", 7), A("i32", -2)], [1]), ("div", [A("i32", -7), A("i32", 2)], [-3]),
+               ("rem", [A("i32", 1), A("i32", 0)], "trap"), ("divu", [A("i32", -1), A("i32", 2)], [2 ** 31 - 1])])
+    case("unreachable and polymorphic stack", module(
+        types=[i_i], funcs=[0, 0, 0], exports=[("t", "func", 0), ("p", "func", 1), ("q", "func", 2)],
+        codes=[([], op("unreachable")),
+               ([], lget(0) + op("return", "i32.add", "drop", "f32.neg", "drop", "select", "i64.eqz")),
+               ([], bytes([O["block"], I32]) + lget(0) + b"\x0c\x00" + op("i32.add", "end"))]),
+        calls=[("t", [A("i32", 1)], "trap"), ("p", [A("i32", 5)], [5]), ("q", [A("i32", 6)], [6])])
+    case("infinite recursion", module(types=[i_i], funcs=[0], exports=[("r", "func", 0)],
+                                      codes=[([], lget(0) + i32c(1) + op("i32.add") + b"\x10\x00")]),
+         calls=[("r", [A("i32", 0)], "trap")])
+    nest = (bytes([O["block"], I32]) + bytes([O["block"], VOID]) + bytes([O["loop"], I32]) + lget(0) +
+            i32c(1) + op("i32.add") + ltee(0) + lget(0) + i32c(5) + op("i32.ge_s") + b"\x0d\x02" +
+            op("drop") + lget(0) + i32c(100) + op("i32.eq") + b"\x0d\x01" + b"\x0c\x00" + op("end") +
+            op("drop", "end") + i32c(-1) + op("end") + i32c(1000) + op("i32.add"))
+    case("nested blocks, br with value, loop result", module(
+        types=[i_i], funcs=[0], exports=[("n", "func", 0)], codes=[([], nest)]),
+        calls=[("n", [A("i32", 0)], [1005]), ("n", [A("i32", 7)], [1008]), ("n", [A("i32", 99)], [1100])])
+    case("br to the function label", module(
+        types=[i_i], funcs=[0], exports=[("f", "func", 0)],
+        codes=[([], bytes([O["block"], VOID]) + lget(0) + lget(0) + b"\x0d\x01" + op("drop", "end") +
+                i32c(77))]),
+        calls=[("f", [A("i32", 5)], [5]), ("f", [A("i32", 0)], [77])])
+    f64body = lget(0) + lget(1) + op("f64.div") + lget(0) + op("f64.sqrt", "f64.add")
+    case("f64 arithmetic", module(types=[([F64, F64], [F64])], funcs=[0], exports=[("f", "func", 0)],
+                                  codes=[([], f64body)]),
+         calls=[("f", [A("f64", 1.0), A("f64", 3.0)], None), ("f", [A("f64", 1.0), A("f64", 0.0)], None),
+                ("f", [A("f64", 0.0), A("f64", 0.0)], None), ("f", [A("f64", -1.0), A("f64", -0.0)], None)])
+    secs = sections_of(types=[ii_i], funcs=[0], exports=[("add", "func", 0)],
+                       codes=[([], lget(0) + lget(1) + op("i32.add"))])
+    cust = section(0, name("note") + b"\x01\x02\xff")
+    case("custom sections everywhere", assemble(
+        [cust] + [x for sid in sorted(secs) for x in ((sid, secs[sid]), cust)] + [section(0, name(""))]),
+        calls=[("add", [A("i32", 1), A("i32", 2)], [3])])
+    case("padded LEBs are legal", HEADER + b"\x01\x87\x80\x80\x80\x00" + b"\x01\x60\x02\x7f\x7f\x01\x7f" +
+         b"\x03\x84\x80\x00\x81\x00\x80\x00" + section(7, vec([name("add") + b"\x00\x80\x80\x80\x80\x00"])) +
+         section(10, vec([b"\x91\x00" + b"\x80\x00" + b"\x20\x80\x00\x20\x81\x80\x80\x80\x00\x6a" +
+                          b"\x41\xff\x7f\x6a" + b"\x0b"])),
+         calls=[("add", [A("i32", 1), A("i32", 2)], [2])])
+    case("imports shift the index spaces", module(
+        types=[i_i, v_v], imports=[("e", "f", b"\x00\x00"), ("e", "g", b"\x03\x7f\x00"),
+                                   ("e", "m", b"\x02" + limits(1)), ("e", "t", b"\x01\x70" + limits(1, 2)),
+                                   ("e", "mg", b"\x03\x7e\x01")],
+        funcs=[0], globals_=[(I32, 0, op("global.get", 0))],
+        exports=[("f", "func", 1), ("imp", "func", 0), ("g", "global", 2), ("m", "mem", 0), ("t", "table", 0)],
+        elems=[(op("global.get", 0), [0, 1])], datas=[(op("global.get", 0), b"hi")],
+        codes=[([], lget(0) + b"\x10\x00" + op("global.get", 2, "i32.add") + i64c(1) + op("global.set", 1))]))
+    case("function and code sections both absent, others present",
+         module(types=[v_v], mems=[limits(0)], globals_=[(F64, 0, f64c(0.0))]))
+    case("locals of every type in groups", module(
+        types=[([], [F64])], funcs=[0], exports=[("f", "func", 0)],
+        codes=[([(2, I64), (0, I32), (3, F64), (1, F32)], lget(3) + lget(4) + op("f64.add") + lget(1) +
+                op("f64.convert_i64_s", "f64.add") + lget(5) + op("f64.promote_f32", "f64.add"))]),
+        calls=[("f", [], [0.0])])
+
+
+valid_cases()
+
+
+def invalid_cases():
+    ii_i, i_i, v_v, v_i = ([I32, I32], [I32]), ([I32], [I32]), ([], []), ([], [I32])
+    D, V = "decode", "validate"
+    add = dict(types=[ii_i], funcs=[0], exports=[("add", "func", 0)],
+               codes=[([], lget(0) + lget(1) + op("i32.add"))])
+    S = sections_of(**add)
+
+    def with_sec(sid, payload):
+        d = dict(S)
+        d[sid] = payload
+        return assemble(d)
+
+    def fn(code, types=None, locals_=(), **kw):
+        """single function of type 0 (default [] -> [i32]) with the given code"""
+        return module(types=types or [v_i], funcs=[0], codes=[(list(locals_), code)], **kw)
+
+    good = assemble(S)
+    # ---- decode rules
+    case("bad magic", b"\0asn" + good[4:], (D, "bad-magic"))
+    case("bad version 2", b"\0asm\x02\0\0\0" + good[8:], (D, "bad-version"))
+    case("truncated preamble", b"\0asm\x01\0", (D, "unexpected-eof"))
+    case("empty file", b"", (D, "unexpected-eof"))
+    case("section order: function before type", assemble([(3, S[3]), (1, S[1]), (7, S[7]), (10, S[10])]),
+         (D, "section-order"))
+    case("duplicate type section", assemble([(1, S[1]), (1, S[1]), (3, S[3]), (7, S[7]), (10, S[10])]),
+         (D, "duplicate-section"))
+    case("section size too large", assemble([(1, S[1]), b"\x03\x03" + S[3], (7, S[7]), (10, S[10])]),
+         (D, "section-size-mismatch"))
+    case("section size too small", assemble([(1, S[1]), (3, S[3]), b"\x07\x06" + S[7], (10, S[10])]),
+         (D, "section-size-mismatch"))
+    case("section size beyond file", assemble([(1, S[1]), (3, S[3]), (7, S[7])]) + b"\x0a\x20" + S[10], (D, "unexpected-eof"))
+    case("truncated file", good[:-3], (D, "unexpected-eof"))
+    case("unknown section 13", good + section(13, b""), (D, "unknown-section"))
+    case("datacount section 12 is post-1.0: V8 accepts (bulk memory)",
+         assemble([(1, S[1]), (3, S[3]), (7, S[7]), (12, u(0)), (10, S[10])]), (D, "unknown-section"),
+         v8="accepts")
+    case("u32 LEB of 6 bytes", assemble([(1, S[1]), b"\x03\x87\x80\x80\x80\x80\x00" + b"\x01\x00"]),
+         (D, "leb-too-long"))
+    case("u32 LEB with bits above 2^32", with_sec(3, b"\x01\x80\x80\x80\x80\x10"), (D, "leb-unused-bits"))
+    case("s32 LEB not sign-extended", fn(b"\x41\xff\xff\xff\xff\x4f"), (D, "leb-unused-bits"))
+    case("s32 LEB too long", fn(b"\x41\x80\x80\x80\x80\x80\x00"), (D, "leb-too-long"))
+    case("s64 LEB too long", fn(b"\x42" + b"\xff" * 10 + b"\x7f" + op("i32.wrap_i64")), (D, "leb-too-long"))
+    case("s64 LEB unused bits", fn(b"\x42" + b"\x80" * 9 + b"\x02" + op("i32.wrap_i64")),
+         (D, "leb-unused-bits"))
+    case("value type 0x7b is post-1.0: V8 accepts (v128, SIMD)",
+         assemble({1: vec([b"\x60" + vec([b"\x7b"]) + vec([])])}), (D, "bad-valtype"), v8="accepts")
+    case("bad value type 0x50", with_sec(1, vec([b"\x60" + vec([b"\x50", b"\x7f"]) + vec([b"\x7f"])])),
+         (D, "bad-valtype"))
+    case("bad function type tag", with_sec(1, vec([b"\x61" + S[1][2:]])), (D, "bad-functype-tag"))
+    case("two results are post-1.0: V8 accepts (multi-value)", module(
+        types=[([], [I32, I32])], funcs=[0], codes=[([], i32c(1) + i32c(2))]), (D, "too-many-results"),
+        v8="accepts")
+    case("function section without code", assemble([(1, S[1]), (3, S[3])]), (D, "func-code-count-mismatch"))
+    case("code section without function section", assemble([(1, S[1]), (10, S[10])]),
+         (D, "func-code-count-mismatch"))
+    case("function/code counts differ", with_sec(3, vec([u(0), u(0)])), (D, "func-code-count-mismatch"))
+    raw = b"\x00" + lget(0) + lget(1) + op("i32.add", "end")
+    case("body size one too large (swallows the byte after the body)",
+         with_sec(10, vec([u(len(raw) + 1) + raw]) + b"\x01"), (D, "body-size-mismatch"))
+    case("body size too small (cuts an immediate)", with_sec(10, u(1) + u(2) + b"\x00\x20" + b"\x00\x0b"),
+         (D, "body-size-mismatch"))
+    case("bytes after the closing end inside the body", with_sec(10, vec([u(len(raw) + 1) + raw + b"\x01"])),
+         (D, "body-size-mismatch"))
+    case("body size beyond the section", with_sec(10, u(1) + u(len(raw) + 5) + raw), (D, "section-size-mismatch"))
+    case("bad UTF-8 in export name", with_sec(7, vec([name(b"a\xffb") + b"\x00\x00"])), (D, "bad-utf8"))
+    case("overlong UTF-8 in export name", with_sec(7, vec([name(b"\xc0\x80") + b"\x00\x00"])), (D, "bad-utf8"))
+    case("surrogate in import name", module(types=[v_v], imports=[("m", b"\xed\xa0\x80", b"\x00\x00")]),
+         (D, "bad-utf8"))
+    case("bad UTF-8 in custom section name", good + section(0, name(b"\x80x")), (D, "bad-utf8"))
+    case("custom section name longer than the section", good + section(0, b"\x05ab"),
+         (D, "section-size-mismatch"))
+    case("bad export kind", with_sec(7, vec([name("add") + b"\x07\x00"])), (D, "bad-export-kind"))
+    case("bad import kind", module(types=[v_v], imports=[("m", "n", b"\x07\x00")]), (D, "bad-import-kind"))
+    case("one trailing byte", good + b"\x00", (D, "trailing-bytes"))
+    case("bad limits flag", module(mems=[b"\x04\x01"]), (D, "bad-limits-flag"))
+    case("shared memory flag 3 is post-1.0: V8 accepts (threads)", module(mems=[b"\x03\x01\x02"]),
+         (D, "bad-limits-flag"), v8="accepts")
+    case("too many locals", with_sec(10, vec([body([(0x80000000, I32), (0x80000000, I32)],
+                                                   lget(0) + lget(1) + op("i32.add"))])),
+         (D, "too-many-locals"))
+    for o in (0x06, 0x12, 0x1C, 0x25, 0x27, 0xC5, 0xD3, 0xFB, 0xFF):
+        case("bad opcode 0x%02x" % o, fn(bytes([o]) + i32c(0)), (D, "bad-opcode"))
+    case("sign-extension opcode 0xc0 is post-1.0: V8 accepts", fn(i32c(1) + b"\xc0"), (D, "bad-opcode"),
+         v8="accepts")
+    case("saturating truncation 0xfc 0x00 is post-1.0: V8 accepts", fn(f32c(1.0) + b"\xfc\x00"),
+         (D, "bad-opcode"), v8="accepts")
+    case("bad block type 0x41", fn(bytes([O["block"], 0x41]) + i32c(0) + op("end")), (D, "bad-blocktype"))
+    case("block type index is post-1.0: V8 accepts (multi-value)",
+         fn(bytes([O["block"], 0x00]) + i32c(0) + op("end")), (D, "bad-blocktype"), v8="accepts")
+    case("unterminated body", with_sec(10, vec([u(len(raw) - 1) + raw[:-1]])), (D, "unterminated-body"))
+    case("unterminated block", fn(bytes([O["block"], I32]) + i32c(0)), (D, "unterminated-body"))
+    case("else without if", fn(bytes([O["block"], I32]) + i32c(0) + op("else") + i32c(1) + op("end")),
+         (D, "misplaced-else"))
+    case("two else", fn(i32c(1) + bytes([O["if"], I32]) + i32c(0) + op("else") + i32c(1) + op("else") +
+                        i32c(2) + op("end")), (D, "misplaced-else"))
+    case("memory.size reserved byte", fn(op("memory.size", 1), mems=[limits(1)]), (D, "bad-reserved-byte"))
+    case("call_indirect reserved byte", fn(i32c(0) + b"\x11\x00\x01", tables=[limits(1)]),
+         (D, "bad-reserved-byte"))
+    case("bad table element type", assemble({4: vec([b"\x7f" + limits(1)])}), (D, "bad-elemtype"))
+    case("bad global mutability", module(globals_=[(I32, 2, i32c(0))]), (D, "bad-mutability"))
+    case("type section with missing vector", assemble([(1, b"")]), (D, "section-size-mismatch"))
+    case("f32.const cut by the body end", with_sec(10, vec([u(4) + b"\x00\x43\x00\x00"])),
+         (D, "body-size-mismatch"))
+    # ---- validation rules
+    case("function type index out of range", with_sec(3, vec([u(1)])), (V, "type-index-out-of-range"))
+    case("import type index out of range", module(types=[v_v], imports=[("m", "f", b"\x00\x01")]),
+         (V, "type-index-out-of-range"))
+    case("call index out of range", fn(b"\x10\x01"), (V, "func-index-out-of-range"))
+    case("local index out of range", fn(lget(1), locals_=[(1, I32)]), (V, "local-index-out-of-range"))
+    case("local.set index out of range", fn(i32c(1) + lset(2) + i32c(0), types=[i_i], locals_=[(1, I32)]),
+         (V, "local-index-out-of-range"))
+    case("global index out of range", fn(op("global.get", 1), globals_=[(I32, 0, i32c(0))]),
+         (V, "global-index-out-of-range"))
+    case("label out of range", fn(bytes([O["block"], VOID]) + b"\x0c\x02" + op("end") + i32c(0)),
+         (V, "label-out-of-range"))
+    case("br_table label out of range", fn(i32c(0) + b"\x0e\x01\x00\x01"), (V, "label-out-of-range"))
+    case("i32.add on f32", fn(i32c(1) + f32c(1.0) + op("i32.add")), (V, "type-mismatch"))
+    case("result type mismatch", fn(i64c(1)), (V, "type-mismatch"))
+    case("return type mismatch", fn(f64c(1.0) + op("return")), (V, "type-mismatch"))
+    case("call argument mismatch", module(types=[i_i], funcs=[0, 0], codes=[
+        ([], f32c(1.0) + b"\x10\x01"), ([], lget(0))]), (V, "type-mismatch"))
+    case("local.set type mismatch", fn(f32c(0.0) + lset(0) + i32c(0), locals_=[(1, I32)]), (V, "type-mismatch"))
+    case("if condition not i32", fn(f32c(0.0) + bytes([O["if"], VOID]) + op("end") + i32c(0)),
+         (V, "type-mismatch"))
+    case("if with result and no else", fn(i32c(1) + bytes([O["if"], I32]) + i32c(0) + op("end")),
+         (V, "type-mismatch"))
+    case("if arms disagree", fn(i32c(1) + bytes([O["if"], I32]) + i32c(0) + op("else") + f32c(0.0) + op("end")),
+         (V, "type-mismatch"))
+    case("select operands differ", fn(i32c(1) + i64c(1) + i32c(0) + op("select", "drop") + i32c(0)),
+         (V, "type-mismatch"))
+    case("br_table labels differ", fn(bytes([O["block"], I32, O["block"], VOID]) + i32c(0) + i32c(0) +
+                                      b"\x0e\x01\x00\x01" + op("end") + i32c(0) + op("end")),
+         (V, "type-mismatch"))
+    case("br value type mismatch", fn(bytes([O["block"], I32]) + f32c(1.0) + b"\x0c\x00" + op("end")),
+         (V, "type-mismatch"))
+    case("loop label takes no value", fn(bytes([O["loop"], I32]) + i32c(1) + b"\x0d\x00" + op("end")),
+         (V, "stack-underflow"))
+    case("i32.add with one operand", fn(i32c(1) + op("i32.add")), (V, "stack-underflow"))
+    case("block cannot see outer operands", fn(i32c(1) + bytes([O["block"], I32]) + op("i32.eqz", "end") +
+                                               op("i32.add")), (V, "stack-underflow"))
+    case("drop on empty stack", fn(op("drop") + i32c(0)), (V, "stack-underflow"))
+    case("empty body for a result", fn(b""), (V, "stack-underflow"))
+    case("two values for one result", fn(i32c(1) + i32c(2)), (V, "stack-height-at-end"))
+    case("value left in a void block", fn(bytes([O["block"], VOID]) + i32c(1) + op("end") + i32c(0)),
+         (V, "stack-height-at-end"))
+    case("value left before else", fn(i32c(1) + bytes([O["if"], VOID]) + i32c(1) + op("else", "end") + i32c(0)),
+         (V, "stack-height-at-end"))
+    case("duplicate export name", module(**dict(add, exports=[("a", "func", 0), ("a", "func", 0)])),
+         (V, "duplicate-export-name"))
+    case("duplicate export name across kinds", module(**dict(add, mems=[limits(1)], exports=[
+        ("a", "func", 0), ("a", "mem", 0)])), (V, "duplicate-export-name"))
+    case("export func index out of range", module(**dict(add, exports=[("a", "func", 1)])),
+         (V, "export-index-out-of-range"))
+    case("export of a missing memory", module(**dict(add, exports=[("m", "mem", 0)])),
+         (V, "export-index-out-of-range"))
+    case("export of a missing global", module(**dict(add, exports=[("g", "global", 0)])),
+         (V, "export-index-out-of-range"))
+    case("two tables are post-1.0: V8 accepts (reference types)", module(tables=[limits(1), limits(1)]),
+         (V, "multiple-tables"), v8="accepts")
+    case("two memories", module(mems=[limits(1), limits(1)]), (V, "multiple-memories"))
+    case("imported plus defined memory", module(imports=[("m", "m", b"\x02" + limits(1))], mems=[limits(1)]),
+         (V, "multiple-memories"))
+    case("memory min > max", module(mems=[limits(2, 1)]), (V, "limits-min-gt-max"))
+    case("table min > max", module(tables=[limits(2, 1)]), (V, "limits-min-gt-max"))
+    case("memory min 65537", module(mems=[limits(65537)]), (V, "memory-too-large"))
+    case("memory max 65537", module(mems=[limits(1, 65537)]), (V, "memory-too-large"))
+    case("load without memory", fn(i32c(0) + b"\x28\x02\x00"), (V, "no-memory"))
+    case("memory.grow without memory", fn(i32c(0) + op("memory.grow", 0)), (V, "no-memory"))
+    case("data segment without memory", module(datas=[(i32c(0), b"x")]), (V, "no-memory"))
+    case("call_indirect without table", fn(i32c(0) + b"\x11\x00\x00"), (V, "no-table"))
+    case("call_indirect type out of range", fn(i32c(0) + b"\x11\x05\x00", tables=[limits(1)]),
+         (V, "type-index-out-of-range"))
+    case("element segment without table", module(**dict(add, elems=[(i32c(0), [0])])), (V, "unknown-table"))
+    case("element segment function out of range", module(**dict(add, tables=[limits(1)],
+                                                              elems=[(i32c(0), [1])])),
+         (V, "func-index-out-of-range"))
+    case("global.set of an immutable global", fn(i32c(1) + op("global.set", 0) + i32c(0),
+                                                  globals_=[(I32, 0, i32c(0))]), (V, "immutable-global-set"))
+    case("non-constant global initialiser", module(globals_=[(I32, 0, i32c(1) + i32c(2) + op("i32.add"))]),
+         (V, "const-expr"))
+    case("initialiser reads a defined global", module(globals_=[(I32, 0, i32c(1)), (I32, 0, op("global.get", 0))]),
+         (V, "const-expr"))
+    case("initialiser reads a mutable import", module(imports=[("m", "g", b"\x03\x7f\x01")],
+                                                      globals_=[(I32, 0, op("global.get", 0))]),
+         (V, "const-expr"))
+    case("initialiser of the wrong type", module(globals_=[(I32, 0, i64c(1))]), (V, "type-mismatch"))
+    case("empty initialiser", module(globals_=[(I32, 0, b"")]), (V, "type-mismatch"))
+    case("data offset not i32", module(mems=[limits(1)], datas=[(i64c(0), b"x")]), (V, "type-mismatch"))
+    case("element offset not constant", module(**dict(add, tables=[limits(1)],
+                                                      elems=[(i32c(0) + op("i32.eqz"), [0])])),
+         (V, "const-expr"))
+    case("start function takes a parameter", module(**dict(add, start=0)), (V, "start-func-type"))
+    case("start function index out of range", module(types=[v_v], funcs=[0], codes=[([], b"")], start=1),
+         (V, "func-index-out-of-range"))
+    case("alignment too large (i32.load align 3)", fn(i32c(0) + b"\x28\x03\x00", mems=[limits(1)]),
+         (V, "alignment-too-large"))
+    case("alignment too large (i64.store8 align 1)", fn(i32c(0) + i64c(0) + b"\x3c\x01\x00" + i32c(0),
+                                                        mems=[limits(1)]), (V, "alignment-too-large"))
+    case("store operands swapped", fn(f32c(0.0) + i32c(0) + b"\x38\x02\x00" + i32c(0), mems=[limits(1)]),
+         (V, "type-mismatch"))
+    case("unreachable code is still typed", fn(op("unreachable") + f32c(0.0) + op("i32.eqz")),
+         (V, "type-mismatch"))
+    case("call of an import with wrong arity", module(
+        types=[i_i], imports=[("m", "f", b"\x00\x00")], funcs=[0], codes=[([], b"\x10\x00")]),
+        (V, "stack-underflow"))
+
+
+invalid_cases()
+
+
+def run_part1(node, keep):
+    fails = []
+    jobs = [(c["data"], [(e, a) for e, a, _x in c["calls"]] if c["calls"] else None) for c in CASES]
+    theirs = run_node(node, jobs, keep) if node else [None] * len(CASES)
+    ncalls = nrules = 0
+    for c, nrec in zip(CASES, theirs):
+        nm = c["name"]
+        verdict, res = run_mine(c["data"], jobs[CASES.index(c)][1])
+        if c["expect"] == "ok":
+            if not verdict[0]:
+                fails.append("%s: expected valid, got %s" % (nm, verdict))
+                continue
+        else:
+            nrules += 1
+            if verdict[0] or (verdict[1], verdict[2]) != c["expect"]:
+                fails.append("%s: expected %s, got %s" % (nm, c["expect"], verdict))
+        if nrec is not None:
+            want_v8 = verdict[0] or c["v8"] == "accepts"
+            if nrec["valid"] != want_v8:
+                fails.append("%s: V8 says valid=%s (%s), reference says %s" % (
+                    nm, nrec["valid"], nrec.get("error"), verdict))
+        if res is None:
+            continue
+        if nrec is not None and "insterr" in nrec:
+            fails.append("%s: V8 instantiation failed: %s" % (nm, nrec["insterr"]))
+            continue
+        for i, ((export, args, expected), got) in enumerate(zip(c["calls"], res)):
+            ncalls += 1
+            tag = "%s: %s(%s)" % (nm, export, ", ".join(str(v) for _t, v in args))
+            rts = result_types(c["data"], export)
+            if expected == "trap":
+                if got[0] != "trap":
+                    fails.append("%s: expected a trap, got %s" % (tag, got))
+            elif expected is not None:
+                if got[0] != "ok" or len(got[1]) != len(expected) or not all(
+                        same_value(t, g, float(e) if t[0] == "f" else e)
+                        for t, g, e in zip(rts, got[1], expected)):
+                    fails.append("%s: expected %s, got %s" % (tag, expected, got))
+            if nrec is not None:
+                nv = node_value(nrec["results"][i])
+                if nv[0] != got[0]:
+                    fails.append("%s: V8 %s, reference %s" % (tag, nv, got))
+                elif nv[0] == "ok":
+                    if (nv[1] is None) != (not got[1]) or (got[1] and not same_value(rts[0], got[1][0], nv[1])):
+                        fails.append("%s: V8 %r, reference %r" % (tag, nv[1], got[1]))
+    print("part 1: %d hand-assembled modules (%d valid, %d invalid with expected rule), %d calls, V8 %s: "
+          "%d failure(s)" % (len(CASES), len(CASES) - nrules, nrules, ncalls,
+                             "compared" if node else "absent", len(fails)))
+    return fails
+
+
+# ---------------------------------------------------------------------------------------------
+# part 2: random valid-by-construction functions over i32 / f32
+I32_CONSTS = [0, 1, -1, 2, 3, 7, 31, 32, 33, 0x7F, 0x80, 0xFF, 0xFFFF, 2 ** 31 - 1, -2 ** 31, -2 ** 31 + 1,
+              0x55555555, 16777216, 16777217, 0x4B000000, 0x7F800000, 0x3F800000, -2]
+F32_CONSTS = [0.0, -0.0, 1.0, -1.0, 0.5, -0.5, 1.5, 2.5, -2.5, 3.5, 0.1, 100.25, float("inf"),
+              float("-inf"), float("nan"), 3.4028234663852886e38, 1e-45, 1.1754943508222875e-38,
+              2147483648.0, -2147483648.0, 2147483520.0, 4294967296.0, 4294967040.0, -2147483904.0,
+              16777216.0, 8388607.5, 8388608.0, 0.75, -0.75, 1e10, 1e-10]
+I32_BIN = ["i32." + n for n in _IBIN + _ICMP]
+I32_UN = ["i32." + n for n in _IUN + ["eqz"]]
+F32_BIN = ["f32." + n for n in ("add", "sub", "mul", "div", "min", "max")]     # no copysign: NaN sign
+F32_UN = ["f32." + n for n in _FUN]
+F32_CMP = ["f32." + n for n in _FCMP]
+PARAMS = [I32, I32, F32, F32]
+LOCALS = [I32, F32, I32, F32]          # local indices 4..7
+
+
+class Gen:
+    def __init__(self, rng):
+        self.r = rng
+        self.labels = []               # enclosing label types, innermost last (None = no value)
+
+    def local_of(self, t):
+        return self.r.choice([i for i, x in enumerate(PARAMS + LOCALS) if x == t])
+
+    def leaf(self, t):
+        r = self.r
+        if r.random() < 0.5:
+            return lget(self.local_of(t))
+        if t == I32:
+            return i32c(r.choice(I32_CONSTS) if r.random() < 0.7 else r.randrange(-2 ** 31, 2 ** 31))
+        if r.random() < 0.8:
+            return f32c(r.choice(F32_CONSTS))
+        bits = r.getrandbits(32)
+        if bits & 0x7F800000 == 0x7F800000 and bits & 0x7FFFFF:
+            bits = 0x7FC00000          # only the canonical NaN: payloads are not modelled
+        return f32c(bits)
+
+    def block(self, t, inner):
+        """run inner() with a new label of type t on the label stack"""
+        self.labels.append(t)
+        try:
+            return inner()
+        finally:
+            self.labels.pop()
+
+    def branch_prefix(self, d):
+        """code with no net stack effect that may branch to a random enclosing label"""
+        k = self.r.randrange(len(self.labels))
+        lt = self.labels[-1 - k]
+        if lt is None:
+            return self.expr(I32, d - 1) + b"\x0d" + u(k)
+        return self.expr(lt, d - 1) + self.expr(I32, d - 1) + b"\x0d" + u(k) + op("drop")
+
+    def expr(self, t, d):
+        r = self.r
+        if d <= 0 or r.random() < 0.2:
+            return self.leaf(t)
+        c = r.random()
+        E = self.expr
+        if c < 0.30:
+            if t == I32:
+                return E(I32, d - 1) + E(I32, d - 1) + op(r.choice(I32_BIN))
+            return E(F32, d - 1) + E(F32, d - 1) + op(r.choice(F32_BIN))
+        if c < 0.42:
+            return E(t, d - 1) + op(r.choice(I32_UN if t == I32 else F32_UN))
+        if c < 0.52:
+            if t == I32:
+                if r.random() < 0.5:
+                    return E(F32, d - 1) + E(F32, d - 1) + op(r.choice(F32_CMP))
+                return E(F32, d - 1) + op(r.choice(["i32.trunc_f32_s", "i32.trunc_f32_u"]))
+            return E(I32, d - 1) + op(r.choice(["f32.convert_i32_s", "f32.convert_i32_u", "f32.reinterpret_i32"]))
+        if c < 0.60:
+            return E(t, d - 1) + E(t, d - 1) + E(I32, d - 1) + op("select")
+        if c < 0.67:
+            return E(t, d - 1) + ltee(self.local_of(t))
+        if c < 0.77:
+            return E(I32, d - 1) + bytes([O["if"], t]) + self.block(
+                t, lambda: self.arm(t, d - 1) + op("else") + self.arm(t, d - 1)) + op("end")
+        if c < 0.88:
+            return bytes([O["block"], t]) + self.block(t, lambda: self.branch_prefix(d) + self.arm(t, d - 1)) + \
+                op("end")
+        if c < 0.94:
+            return self.stmt(d - 1) + E(t, d - 1)
+        return self.branch_prefix(d) + E(t, d - 1)
+
+    def arm(self, t, d):
+        """a block/if arm producing t; sometimes ends in br/return/unreachable (stack-polymorphic)"""
+        c = self.r.random()
+        if c < 0.80:
+            return self.expr(t, d)
+        if c < 0.88:
+            k = self.r.randrange(len(self.labels))
+            lt = self.labels[-1 - k]
+            return (self.expr(lt, d) if lt is not None else b"") + b"\x0c" + u(k)
+        if c < 0.94:
+            return self.expr(self.labels[0], d) + op("return") + (self.leaf(t) if self.r.random() < 0.5 else b"")
+        if c < 0.97:
+            return op("unreachable") + self.r.choice([
+                b"", self.leaf(t), op("select"), op("i32.add" if t == I32 else "f32.neg"),
+                op("drop", "drop") + self.leaf(t), op("i64.eqz", "drop", "select")])
+        return self.expr(t, d)
+
+    def stmt(self, d):
+        r = self.r
+        c = r.random()
+        t = r.choice([I32, F32])
+        if d <= 0 or c < 0.40:
+            return self.expr(t, d) + lset(self.local_of(t))
+        if c < 0.50:
+            return self.expr(t, d) + op("drop")
+        if c < 0.65:
+            return self.expr(I32, d - 1) + bytes([O["if"], VOID]) + self.block(
+                None, lambda: self.stmts(d - 1) + (op("else") + self.stmts(d - 1) if r.random() < 0.5 else b"")) \
+                + op("end")
+        if c < 0.80:
+            return bytes([O["block"], VOID]) + self.block(
+                None, lambda: self.stmts(d - 1) + self.branch_prefix(d) + self.stmts(d - 1)) + op("end")
+        if c < 0.90:
+            n = r.randrange(1, 4)
+            code = bytes([O["block"], VOID]) * (n + 1)
+            self.labels.extend([None] * (n + 1))
+            code += self.expr(I32, d - 1) + b"\x0e" + vec([u(r.randrange(n + 1)) for _ in range(n)]) + \
+                u(r.randrange(n + 1))
+            for _ in range(n + 1):
+                self.labels.pop()
+                code += op("end") + self.stmts(d - 1)
+            return code
+        return self.expr(I32, d - 1) + bytes([O["if"], VOID]) + self.block(
+            None, lambda: self.expr(self.labels[0], d - 1) + op("return")) + op("end")
+
+    def stmts(self, d):
+        return b"".join(self.stmt(d) for _ in range(self.r.randrange(0, 3)))
+
+    def function(self):
+        rt = self.r.choice([I32, F32])
+        self.labels = [rt]
+        d = self.r.randrange(2, 6)
+        return rt, self.stmts(d) + self.expr(rt, d)
+
+
+def arg_vectors(rng):
+    vs = [(0, 0, 0.0, 0.0), (1, -1, 1.5, -2.5), (2 ** 31 - 1, -2 ** 31, float("inf"), float("nan")),
+          (33, 7, -0.0, 3.4028234663852886e38)]
+    for _ in range(2):
+        vs.append((rng.choice(I32_CONSTS), rng.randrange(-2 ** 31, 2 ** 31), rng.choice(F32_CONSTS),
+                   struct.unpack("<f", struct.pack("<f", rng.uniform(-1e6, 1e6)))[0]))
+    return vs
+
+
+def random_module(rng, nfuncs=20):
+    g = Gen(rng)
+    fns = [g.function() for _ in range(nfuncs)]
+    parts = dict(types=[(PARAMS, [I32]), (PARAMS, [F32])], funcs=[0 if rt == I32 else 1 for rt, _c in fns],
+                 exports=[("f%d" % i, "func", i) for i in range(nfuncs)],
+                 codes=[([(1, I32), (1, F32), (1, I32), (1, F32)], c) for _rt, c in fns])
+    return parts, fns
+
+
+def run_part2(node, keep, rng, nmodules=100, nfuncs=20):
+    fails, jobs, metas = [], [], []
+    for _ in range(nmodules):
+        parts, fns = random_module(rng, nfuncs)
+        calls = [("f%d" % i, [A("i32", a), A("i32", b), A("f32", c), A("f32", d)])
+                 for i in range(nfuncs) for (a, b, c, d) in arg_vectors(rng)]
+        jobs.append((module(**parts), calls))
+        metas.append((parts, fns))
+    theirs = run_node(node, jobs, keep) if node else [None] * len(jobs)
+    ncalls = ntraps = ninstr = 0
+    t0 = time.time()
+    for mi, ((data, calls), nrec, (_parts, fns)) in enumerate(zip(jobs, theirs, metas)):
+        verdict, res = run_mine(data, calls)
+        if not verdict[0]:
+            fails.append("random module %d: generator output rejected: %s" % (mi, verdict))
+            continue
+        ninstr += sum(len(b) for _l, b in decode(data).codes)
+        if nrec is None:
+            continue
+        if not nrec["valid"] or "insterr" in nrec:
+            fails.append("random module %d: V8 rejects: %s" % (mi, nrec.get("error") or nrec.get("insterr")))
+            continue
+        for ci, ((export, args), got) in enumerate(zip(calls, res)):
+            ncalls += 1
+            nv = node_value(nrec["results"][ci])
+            rt = TNAME[fns[int(export[1:])][0]]
+            ntraps += got[0] == "trap"
+            if nv[0] != got[0] or (nv[0] == "ok" and not same_value(rt, got[1][0], nv[1])):
+                fails.append("random module %d %s%s: V8 %s, reference %s" % (mi, export, [v for _t, v in args],
+                                                                            nv, got))
+    print("part 2: %d random functions in %d modules (%d instructions), %d calls (%d trapped), V8 %s, "
+          "%.1fs: %d failure(s)" % (nmodules * nfuncs, nmodules, ninstr, ncalls, ntraps,
+                                    "compared" if node else "absent", time.time() - t0, len(fails)))
+    return fails, metas
+
+
+# ---------------------------------------------------------------------------------------------
+# part 3: mutated modules, verdict vs WebAssembly.validate
+def mutate_bytes(rng, data, lo=8):
+    data = bytearray(data)
+    for _ in range(rng.choice([1, 1, 1, 2, 3])):
+        if len(data) <= lo:
+            break
+        i = rng.randrange(lo, len(data))
+        c = rng.random()
+        if c < 0.35:
+            data[i] = rng.randrange(256)
+        elif c < 0.55:
+            data[i] = rng.choice([0x00, 0x01, 0x0B, 0x40, 0x7F, 0x7E, 0x7D, 0x80, 0xFF, 0x05, 0x0C, 0x20, 0x41])
+        elif c < 0.70:
+            data[i] = (data[i] + rng.choice([1, -1])) & 0xFF
+        elif c < 0.80:
+            data[i] ^= 1 << rng.randrange(8)
+        elif c < 0.90:
+            data.insert(i, rng.randrange(256))
+        else:
+            del data[i]
+    return bytes(data)
+
+
+def mutants(rng, metas, count):
+    """half raw byte mutations of whole modules (hand-made valid ones and random ones), half mutations
+    inside one function body / one section payload with all size fields rebuilt (reaches the validator)"""
+    out = []
+    valid = [c["data"] for c in CASES if c["expect"] == "ok" and len(c["data"]) > 8 and len(c["data"]) < 4000]
+    small = [module(**random_module(rng, 2)[0]) for _ in range(30)]
+    while len(out) < count:
+        out.append(mutate_bytes(rng, rng.choice(valid + small)))
+    while len(out) < 2 * count:
+        parts, fns = random_module(rng, rng.randrange(1, 4))
+        if rng.random() < 0.3:
+            parts.update(mems=[limits(1, 2)], tables=[limits(2)], globals_=[(I32, 1, i32c(5)), (F32, 0, f32c(1.0))],
+                         elems=[(i32c(0), [0])], datas=[(i32c(3), b"abc")])
+        if rng.random() < 0.75:
+            codes = list(parts["codes"])
+            k = rng.randrange(len(codes))
+            codes[k] = (codes[k][0], mutate_bytes(rng, codes[k][1], 0))
+            parts["codes"] = codes
+            out.append(module(**parts))
+        else:
+            secs = sections_of(**parts)
+            sid = rng.choice(sorted(secs))
+            secs[sid] = mutate_bytes(rng, secs[sid], 0)
+            out.append(assemble(secs))
+    return out
+
+
+POST_MVP_OPCODES = set(range(0xC0, 0xC5)) | {0xFC, 0xFD, 0xFE, 0xD0, 0xD1, 0xD2, 0x1C, 0x25, 0x26,
+                                             0x06, 0x07, 0x08, 0x09, 0x12, 0x13, 0x18, 0x19}
+
+
+def v8_laxer(data, verdict):
+    """The reference rejects and V8 accepts: name the post-1.0 feature that explains it, or None.
+    Every class below is a feature V8 (node 20) ships on top of WebAssembly 1.0; the 1.0 binary
+    format / validation rules reject these modules, so the reference verdict stands."""
+    _ok, stage, rule, detail = verdict
+    off = int(detail.split(":")[0].split("0x")[1], 16) if stage == "decode" else None
+    if rule == "bad-opcode" and data[off] in POST_MVP_OPCODES:
+        return "post-MVP opcode (sign-extension 0xC0-0xC4, 0xFC sat-trunc/bulk, 0xFD simd, 0xFE threads, " \
+               "reference types 0xD0-0xD2 / 0x1C / 0x25 / 0x26, exceptions 0x06-0x09/0x18/0x19, tail calls 0x12/0x13)"
+    if rule == "bad-blocktype":
+        return "multi-value: block type is a type index (s33)"
+    if rule == "too-many-results":
+        return "multi-value: more than one result"
+    if rule == "unknown-section" and data[off] in (12, 13):
+        return "datacount (bulk memory) / tag (exceptions) section"
+    if rule == "bad-limits-flag" and data[off] in (2, 3):
+        return "threads: shared memory limits flag"
+    if rule in ("bad-valtype", "bad-elemtype") and data[off] in (0x7B, 0x70, 0x6F):
+        return "v128 / funcref / externref value types (simd, reference types)"
+    if rule == "bad-reserved-byte":
+        return "reference types: call_indirect carries a table index (LEB), not a reserved byte"
+    if rule in ("bad-import-kind", "bad-export-kind") and data[off] == 4:
+        return "exceptions: tag import/export kind"
+    if rule == "multiple-tables":
+        return "reference types: several tables"
+    if stage == "decode" and 9 in [sec_id for sec_id in _section_ids(data)] and _in_section(data, off, (9, 11)):
+        return "bulk memory: element/data segments start with a flags field (passive/declared segments)"
+    if rule == "type-mismatch" and "br_table" in detail:
+        return "br_table in unreachable code: later spec versions only require equal arity"
+    if rule == "stack-underflow" or rule == "type-mismatch":
+        # 1.0 types `select` operands in unreachable code slightly more strictly than V8; see below
+        return None
+    return None
+
+
+def _section_ids(data):
+    try:
+        decode(data)
+    except DecodeError as e:
+        return [sec["id"] for sec in e.module.sections]
+    return []
+
+
+def _in_section(data, off, ids):
+    try:
+        decode(data)
+    except DecodeError as e:
+        for sec in e.module.sections:
+            if sec["id"] in ids and sec["payload_offset"] <= off <= sec["payload_offset"] + sec["size_field_value"]:
+                return True
+    return False
+
+
+def v8_stricter(data, nrec):
+    """The reference accepts and V8 rejects: only V8 implementation limits are tolerated."""
+    err = nrec.get("error") or ""
+    for marker in ("local count too large", "larger than implementation limit", "maximum", "exceeds"):
+        if marker in err:
+            return "V8 implementation limit: " + err
+    return None
+
+
+def run_part3(node, keep, rng, metas, count=2000):
+    if not node:
+        print("part 3: skipped (no node)")
+        return []
+    muts = mutants(rng, metas, count)
+    theirs = run_node(node, [(d, None) for d in muts], keep)
+    fails, tolerated, nvalid, by_rule = [], {}, 0, {}
+    t0 = time.time()
+    for i, (data, nrec) in enumerate(zip(muts, theirs)):
+        try:
+            verdict = validate_bytes(data)
+        except Exception as e:                                        # the reference must never crash
+            fails.append("mutant %d: reference crashed: %r  %s" % (i, e, data.hex()))
+            continue
+        nvalid += verdict[0]
+        by_rule[verdict[2]] = by_rule.get(verdict[2], 0) + 1
+        if verdict[0] == nrec["valid"]:
+            continue
+        why = v8_stricter(data, nrec) if verdict[0] else v8_laxer(data, verdict)
+        if why:
+            tolerated[why] = tolerated.get(why, 0) + 1
+        else:
+            fails.append("mutant %d: reference %s, V8 valid=%s (%s)  %s" % (
+                i, verdict, nrec["valid"], nrec.get("error"), data.hex()))
+    print("part 3: %d mutants (%d valid for both), %.1fs, %d distinct reference rules hit: %d failure(s)"
+          % (len(muts), nvalid, time.time() - t0, len(by_rule) - 1, len(fails)))
+    for why, n in sorted(tolerated.items()):
+        print("   tolerated x%d: %s" % (n, why))
+    return fails
